@@ -100,6 +100,11 @@ type Type struct {
 	Format string `json:"format,omitempty"`
 	// key
 	KeyPattern string `json:"key_pattern,omitempty"`
+	// entity-key annotations on a plain key field or on key items (entity blocks
+	// carry theirs on the Field)
+	KeyPrimary bool   `json:"key_primary,omitempty"`
+	KeyForeign string `json:"key_foreign,omitempty"` // "pkg.Entity"
+	KeyTenant  string `json:"key_tenant,omitempty"`
 	// object/oneof/enum
 	Ref          *Ref    `json:"ref,omitempty"`
 	InlineObject *Object `json:"inline_object,omitempty"`
@@ -108,11 +113,11 @@ type Type struct {
 	NameOverride bool    `json:"name_override,omitempty"` // inline type has an explicit name different from the default
 	Flatten      bool    `json:"flatten,omitempty"`
 	// array / map
-	Items *Type      `json:"items,omitempty"`
+	Items *Type `json:"items,omitempty"`
 	// SingleForm: ext.singleForm of an array or map ("" = not declared)
-	SingleForm string `json:"single_form,omitempty"`
-	Rules *Rules     `json:"rules,omitempty"`
-	List  *ListRules `json:"list,omitempty"`
+	SingleForm string     `json:"single_form,omitempty"`
+	Rules      *Rules     `json:"rules,omitempty"`
+	List       *ListRules `json:"list,omitempty"`
 	// any
 	AnyOnlyDefined bool     `json:"any_only_defined,omitempty"`
 	AnyTypes       []string `json:"any_types,omitempty"`
@@ -142,7 +147,7 @@ type Rules struct {
 	MinPairs *uint64 `json:"min_pairs,omitempty"` // map
 	MaxPairs *uint64 `json:"max_pairs,omitempty"`
 
-	MultipleOf *int64  `json:"multiple_of,omitempty"` // integer
+	MultipleOf *int64  `json:"multiple_of,omitempty"`    // integer
 	MinProps   *uint64 `json:"min_properties,omitempty"` // object
 	MaxProps   *uint64 `json:"max_properties,omitempty"`
 
